@@ -6,7 +6,7 @@ sys.path.insert(0, V)
 from rules import equiv, mutants, extract
 from concurrent.futures import ThreadPoolExecutor
 man = json.load(open(os.path.join(V, "MANIFEST.json")))
-props = [c["property_id"] for c in man["checks"]]
+props = [c["property_id"] for c in man["checks"]] + [x for x in os.environ.get("EXTRA_PROPS","").split(",") if x]
 only = sys.argv[1:]
 def one(m):
     if only and m["_name"] not in only:
